@@ -16,6 +16,8 @@ object (-> coq/Gen/XSequence.v).
   result.py     SequenceSearchResults.add / .remove   as Gallina functions on
                 the list stored under a key (the D3 repair is the filter
                 predicate of remove)
+                SearchResult.__init__   section_id and sequence_id are
+                assigned before any early return
 
 Every item is a recogniser of the exact statement shape plus a translation of
 what is inside; docstrings, comments and log.* calls may change freely.  Fail
@@ -298,6 +300,28 @@ def generate(repo):
                 "  if present then filter (fun r => x_seqres_remove_keep "
                 "(sec_of r) sec) old else old.", {'filter': U(c)})
     out.item('x_seqres_remove', res_remove)
+
+    def result_init():
+        # SearchResult.__init__: a result of a sequence part is linked to its
+        # sequence (sequence_id) whether or not its contents are stored
+        f = find_def(rst, 'SearchResult.__init__')
+        body = real_body(f)
+        link = [i for i, n in enumerate(body) if isinstance(n, ast.If)
+                and U(n.test) == 'search_def.sequence_def'
+                and any(U(x) == 'self.sequence_id = search_def.sequence_def.id'
+                        for x in n.body)]
+        ret = [i for i, n in enumerate(body) if isinstance(n, ast.If)
+               and any(isinstance(x, ast.Return) for x in ast.walk(n))]
+        sec = [i for i, n in enumerate(body)
+               if U(n) == 'self.section_id = sequence_section_id']
+        need(len(link) == 1 and len(sec) == 1,
+             "SearchResult.__init__: section_id / sequence_id assignments", f)
+        need(all(link[0] < r and sec[0] < r for r in ret),
+             "SearchResult.__init__ may return before the result is linked "
+             "to its sequence / section", f)
+        return ("Definition x_result_linked_before_any_return : bool := "
+                "true.", {})
+    out.item('x_result_linked_before_any_return', result_init)
 
     text = ("(* GENERATED from the repository working tree by "
             "translator/plugins/sequence.py - do not edit *)\n"
